@@ -503,6 +503,8 @@ structure Spec where
   oddMaps : Bool := false
   /-- every frame handle the implementation returned: (thread, index inside the handle, description) -/
   frames : List (Nat × Nat × FrameDesc) := []
+  /-- every native symbol handle returned: (thread, index inside the handle, library, address) -/
+  nsymsOut : List (Nat × Nat × String × Nat) := []
   err : Option String := none
 
 /-- the pid / tid string of the `k`-th reuse of a number -/
@@ -717,7 +719,11 @@ def Spec.step (s : Spec) (n : Nat) (w : List String) (out : String) : Spec :=
     match s.threadR t, s.libR l, num? a, optNum? sz, unhexStr? nm with
     | some t, some l, some a, some sz, some nm =>
       let (s, go) := s.outcome n out false false
-      if !go then s else (s.registerNsym t l ⟨a, sz, nm⟩).setReg d (.nsym t l a)
+      if !go then s else
+      let s := match (words out).map num? with
+        | [_, some _, some j] => { s with nsymsOut := (t, j, l, a) :: s.nsymsOut }
+        | _ => s
+      (s.registerNsym t l ⟨a, sz, nm⟩).setReg d (.nsym t l a)
     | _, _, _, _, _ => skipped s
   | ["fsym", d, t, mode, k, l, a, nm, ns, f, li, co, dp, sc, fl] =>
     match s.threadR t, s.optStrR nm, s.reg ns, s.optStrR f, optNum? li, optNum? co, num? dp, s.subR sc, num? fl with
@@ -1147,6 +1153,14 @@ def checkFramesCanonical (sp : Spec) (s : SerProfile) : Option String :=
     | some st => decodeFrame s st f.2.1 != some f.2.2)
   match bad with
   | some f => some s!"frame handle ({f.1}, {f.2.1}) does not decode to the frame the caller supplied"
+  | none =>
+  -- native symbol handles: row `j` is (library, address, size and name of the first registration)
+  let badn := sp.nsymsOut.find? (fun n =>
+    match (sp.threads[n.1]?).bind (fun th => (posOfTid s th.tid).bind (s.threads[·]?)), sp.nsymInfo n.1 n.2.2.1 n.2.2.2 with
+    | some st, some (sz, nm) => decodeNsym s st n.2.1 != some (n.2.2.1, n.2.2.2, sz, nm)
+    | _, _ => true)
+  match badn with
+  | some n => some s!"native symbol handle ({n.1}, {n.2.1}) does not decode to the symbol the caller registered"
   | none => none
 
 /-- allocation samples of a process live on its first thread; `none` = fine -/
